@@ -260,11 +260,14 @@ def monitor(case, iout, prop):
                 r = a[0]
                 if flat(R[r]) != flat(old[r]): fail(i, "elements/order/pairing changed")
                 if c == "P" and [len(b) for b in R[r]] != a[1:]: fail(i, "batch sizes differ from the requested partitioning")
+                if d.get("shape%d" % r) != oldshape.get(r): fail(i, "repartition/splitBatch: element shape lost: %s -> %s" % (oldshape.get(r), d.get("shape%d" % r)))
             elif c in ("L", "T"):
                 r, q = a[0], a[1]
                 if flat(R[r]) + flat(R[q]) != flat(old[r]): fail(i, "left ++ right != original")
                 if c == "T" and len(flat(R[r])) != a[2]: fail(i, "split point wrong")
                 if c == "L" and R[r] != old[r][:a[2]]: fail(i, "splice cut at the wrong batch")
+                if d.get("shape%d" % r) != oldshape.get(r) or d.get("shape%d" % q) != oldshape.get(r):
+                    fail(i, "splice/splitAtElement: element shape lost: %s -> left %s, right %s" % (oldshape.get(r), d.get("shape%d" % r), d.get("shape%d" % q)))
             elif c == "A":
                 r, q = a[0], a[1]
                 if R[r] != old[r] + old[q]: fail(i, "append is not concatenation of the batch lists")
@@ -272,6 +275,7 @@ def monitor(case, iout, prop):
                 r = a[0]; e = flat(old[r])
                 if flat(R[r]) != [e[k] for k in a[1:]]: fail(i, "reorderElements is not the documented gather")
                 if [len(b) for b in R[r]] != [len(b) for b in old[r]]: fail(i, "batch structure changed")
+                if d.get("shape%d" % r) != oldshape.get(r): fail(i, "reorderElements: element shape lost: %s -> %s" % (oldshape.get(r), d.get("shape%d" % r)))
             elif c == "H":
                 r = a[0]
                 if ms(flat(R[r])) != ms(flat(old[r])): fail(i, "shuffle changed the multiset of labelled elements")
@@ -279,10 +283,13 @@ def monitor(case, iout, prop):
             elif c == "I":
                 r, q = a[0], a[1]
                 if R[q] != [old[r][k] for k in a[2:]]: fail(i, "indexedSubset does not return the indexed batches")
+                if d.get("shape%d" % q) != oldshape.get(r): fail(i, "indexedSubset: element shape lost: %s -> %s" % (oldshape.get(r), d.get("shape%d" % q)))
             elif c == "K":
                 r, q, t = a[0], a[1], a[2]; idx = a[3:]
                 if R[q] != [old[r][k] for k in idx]: fail(i, "indexedSubset(idx,subset,complement): subset is not the indexed batches")
                 if R[t] != [old[r][k] for k in range(len(old[r])) if k not in idx]: fail(i, "indexedSubset(idx,subset,complement): complement is not the remaining batches in order")
+                if d.get("shape%d" % q) != oldshape.get(r) or d.get("shape%d" % t) != oldshape.get(r):
+                    fail(i, "indexedSubset(idx,subset,complement): element shape lost: %s -> subset %s, complement %s" % (oldshape.get(r), d.get("shape%d" % q), d.get("shape%d" % t)))
             elif c == "B":
                 r = a[0]; e = flat(old[r]); want = sorted(e, key=lambda x: x[1])   # stable by class
                 if flat(R[r]) != want: fail(i, "repartitionByClass: not the class-stable order")
